@@ -3,3 +3,5 @@ pub mod adsr;
 pub mod clamp;
 pub mod common;
 pub mod lfo;
+pub mod midi;
+pub mod quant;
